@@ -5,7 +5,7 @@ from common import hx
 from hexlib import HexaryTrie, keccak, Boom, BOOMS, boom, WriteFailed, FailingDict
 
 ID = "C04"
-LEAN_IMPORTS = ["PyTrie.Props.C04", "PyTrie.Props.C04History", "PyTrie.Props.RawLevel", "PyTrie.Props.NonVacuity", "PyTrie.Props.FreeExec", "PyTrie.Props.NonVacuity8", "PyTrie.Props.C04Shared", "PyTrie.Props.NonVacuity10"]
+LEAN_IMPORTS = ["PyTrie.Props.C04", "PyTrie.Props.C04History", "PyTrie.Props.RawLevel", "PyTrie.Props.NonVacuity", "PyTrie.Props.FreeExec", "PyTrie.Props.NonVacuity8", "PyTrie.Props.C04Shared", "PyTrie.Props.NonVacuity10", "PyTrie.Props.HistoryFailCommit"]
 THEOREMS = [
     "PyTrie.Props.C04.set_writes_addressed",
     "PyTrie.Props.C04.delete_writes_addressed",
@@ -41,6 +41,8 @@ THEOREMS = [
     "PyTrie.Props.NonVacuity10.shared_witness",
     "PyTrie.Props.NonVacuity10.reads_witness",
     "PyTrie.Props.NonVacuity10.reads_evaluated",
+    "PyTrie.Props.Free.fail_block_step",
+    "PyTrie.Props.Free.history_fail_commit_world",
 ]
 RULE = ("interleaved histories of several non-pruning tries over ONE shared database: set/delete on any trie, fresh tries "
         "opened at earlier roots, at_root snapshot reads, squash_changes blocks (normal exit, exception after n operations, n-th "
